@@ -11,7 +11,13 @@ EVAL_RULE = ("eval suite: every case is a session (1..11 inputs on one persisten
              "(ints with boundary values, floats, bools, strings, arrays, maps, named functions/lambdas/closures, recursion, if/else, all for forms "
              "with break/continue/return, = and :=, ++/--, negative indices, slices, every operator rendered with minimal parentheses, print/println), "
              "run under 4 configurations (cache on/off x registers on/off) through the real lexer, parser and evaluator; the Lean evaluator model runs the "
-             "same parsed programs with cache on and off. non-trivial = at least one input parses; distinct = distinct case line.")
+             "same parsed programs with cache on and off. Families of the gap analysis (evalfam4.go, evalfam5.go; 60 sessions of each per run, thorough 1500): "
+             "closures (instances of ONE closure text calling each other, chains, counters, currying, higher-order helpers, closures over loop variables, mutual "
+             "recursion), scoping (= / := / ++ through references on three levels), containers on both sides of the thresholds (literals, ranges, *, +, negative and "
+             "out-of-range indices and slice bounds, single-owner growth and shrinking), variadics, error()/catch() at every position, control flow (else-if, nested loop "
+             "forms with every exit at depth, degenerate bounds), strings (bytes vs runes); for C05 also famRegs3 (0..12 parameters with nested counted loops, computed "
+             "bounds, escaping loop variables, 20..50 top-level loops), for C07 famOpKinds (every operator / ~55 node shapes x 30 operand kinds x 3 renderings). "
+             "non-trivial = at least one input parses; distinct = distinct case line.")
 EVAL_TB = COMMON_TB + ["modelled: eval/eval.go (all of evalInternal and helpers except pipe/log/quote/extension callbacks), eval/eval_api.go Eval, eval/memo.go, "
                        "object/state.go (Get, makeRef, SetNoChecks, CreateOrSet, create, update, Delete, TriggerNoCache), object/object.go "
                        "(Cmp, Equals, Inspect for non-float data, Hashable, First, Rest, Len, map primitives)",
